@@ -18,7 +18,7 @@ CR = 'yui_homology::utils::chain_reducer::ChainReducer::<I, R>::'
 
 
 def sk(t):
-    return re.sub(r'#\d+\.\d+', '', show(t))
+    return re.sub(r'#(?:i\d+:)?\d+\.\d+', '', show(t))
 
 
 def _calls(facts, name, havoc=True):
@@ -81,7 +81,7 @@ def run(facts, rep):
         a = [sk(x) for x in e.args]
         if last == 'insert' and 'mats' in a[0] and len(e.args) == 3:
             v = value_of(e.args[2])
-            ins.setdefault(a[1], set()).add(re.sub(r'&mut _\d+', 'IT', re.sub(r'#\d+\.\d+', '', show(v, -1000))))
+            ins.setdefault(a[1], set()).add(re.sub(r'&mut _\d+', 'IT', re.sub(r'#(?:i\d+:)?\d+\.\d+', '', show(v, -1000))))
 
     def mat_at(k):
         return r'(matrix\(arg1, deg_trip\(arg1, arg2\)\.%d\)|get\(&(post\()*\*?arg1\.mats\)*, &deg_trip\(arg1, arg2\)\.%d\))\.Some\.0' % (k, k)
@@ -222,7 +222,7 @@ def check_complex_glue(facts, rep):
     C = 'yui_homology::conc::complex::ChainComplexBase::<I, X, R>::'
 
     def dk(t):
-        return re.sub(r'\^_ref__', '^', re.sub(r'#\d+\.\d+', '', show(t, -1000))).replace('&', '').replace('*', '')
+        return re.sub(r'\^_ref__', '^', re.sub(r'#(?:i\d+:)?\d+\.\d+', '', show(t, -1000))).replace('&', '').replace('*', '')
 
     from symex import private_helper
 
